@@ -116,6 +116,42 @@ class P(C12):
             if not viol and published != tot_pub:
                 viol.append({"cases": [], "verdict": "%d messages reached the sink for %d datagrams that yield a record or sample" % (published, tot_pub)})
             col.stop(signal.SIGTERM)
+            # the same counters as the DEFAULT stats format shows them (the Prometheus page): a second life of the collector gets, per
+            # protocol, datagrams that decode and datagrams that do not; received and decoded packets are reported under their names
+            if not viol:
+                col2 = c15.Collector(d, sink.port, stats_format="prometheus")
+                if col2.start():
+                    try:
+                        names = {"ipfix": "ipfix", "nf9": "netflowv9", "nf5": "netflowv5", "sflow": "sflow"}
+                        want2 = {}
+                        for proto in ("ipfix", "nf9", "nf5", "sflow"):
+                            good = [x[0] for x in sent[proto] if x[1]][:3]
+                            bad = [bytes(3), b"", bytes(5), bytes([255] * 7)]
+                            for pl in good + bad:
+                                sock.sendto(pl, ("127.0.0.1", col2.ports[proto])); time.sleep(0.01)
+                            want2[proto] = (len(good) + len(bad), None)
+                        # how many of them decode: what the restful page of the first life said about the very same payloads is not
+                        # available; the decoder itself decides (harness), as in the first phase
+                        t0, m = time.time(), {}
+                        while time.time() - t0 < 5:
+                            m = col2.metrics() or {}
+                            if all(m.get("vflow_%s_udp_packets" % names[p]) == want2[p][0] for p in want2):
+                                break
+                            time.sleep(0.1)
+                        time.sleep(0.3)
+                        m = col2.metrics() or m
+                        cov["prometheus_counters"] = {p: [m.get("vflow_%s_udp_packets" % names[p]), m.get("vflow_%s_decoded_packets" % names[p])] for p in want2}
+                        for p in want2:
+                            u, dcd = m.get("vflow_%s_udp_packets" % names[p]), m.get("vflow_%s_decoded_packets" % names[p])
+                            ngood = len([x for x in sent[p] if x[1]][:3])
+                            if u is None or dcd is None:
+                                viol.append({"cases": [], "no_failing_input": True, "verdict": "the Prometheus page has no packet counters for " + p}); break
+                            if u != want2[p][0] or dcd != ngood:
+                                viol.append({"cases": ["%d %s datagrams: %d that decode, then 4 that do not (3 zero octets, empty, 5 zero octets, 7 octets of 0xff)" % (want2[p][0], p, ngood)],
+                                             "verdict": "%s, default stats format (Prometheus page): %d datagrams were sent, %d of them decode; the page reports vflow_%s_udp_packets = %s and "
+                                                        "vflow_%s_decoded_packets = %s" % (p, want2[p][0], ngood, names[p], u, names[p], dcd)}); break
+                    finally:
+                        col2.stop(signal.SIGTERM)
         finally:
             sink.close()
             try:
